@@ -1042,6 +1042,63 @@ func c08r11(rc *core.RC) {
 func c08r12(rc *core.RC) {
 	p := rc.P
 	n := 0
+	// does the compiler box pointer-shaped structs whose member is a pointer to a pointer? The predicate that
+	// structCode and isBoxedValue share has a clause for reflect.Ptr that looks at the kind of the element.
+	boxesChains, boxPred := false, ""
+	if sc := p.Func("encoder", "Compiler.structCode"); sc != nil && sc.Body != nil {
+		sinfo := p.Info(sc)
+		ast.Inspect(sc.Body, func(m ast.Node) bool {
+			as, ok := m.(*ast.AssignStmt)
+			if !ok || len(as.Lhs) != 1 || len(as.Rhs) != 1 {
+				return true
+			}
+			ast.Inspect(as.Rhs[0], func(k ast.Node) bool {
+				c, isCall := k.(*ast.CallExpr)
+				if !isCall {
+					return true
+				}
+				f := core.Callee(sinfo, c)
+				if f == nil || f.Pkg() == nil || f.Pkg().Path() != core.PkgPaths["encoder"] {
+					return true
+				}
+				pd := p.DeclOf(f)
+				if pd == nil || pd.Body == nil {
+					return true
+				}
+				pinfo := p.Info(pd)
+				ast.Inspect(pd.Body, func(x ast.Node) bool {
+					cc, isCC := x.(*ast.CaseClause)
+					if !isCC {
+						return true
+					}
+					isPtrClause := false
+					for _, l := range cc.List {
+						if sel, isSel := core.Unparen(l).(*ast.SelectorExpr); isSel && (sel.Sel.Name == "Ptr" || sel.Sel.Name == "Pointer") {
+							isPtrClause = true
+						}
+					}
+					if !isPtrClause {
+						return true
+					}
+					for _, st := range cc.Body {
+						ast.Inspect(st, func(y ast.Node) bool {
+							if be, isBin := y.(*ast.BinaryExpr); isBin && (be.Op == token.EQL || be.Op == token.NEQ) {
+								if sel, isSel := core.Unparen(be.Y).(*ast.SelectorExpr); isSel && (sel.Sel.Name == "Ptr" || sel.Sel.Name == "Pointer") {
+									if _, isCall := core.Unparen(be.X).(*ast.CallExpr); isCall {
+										boxesChains, boxPred = true, pinfo.Defs[pd.Name].Name()
+									}
+								}
+							}
+							return true
+						})
+					}
+					return true
+				})
+				return true
+			})
+			return true
+		})
+	}
 	re := func(name string) bool {
 		if !strings.HasPrefix(name, "OpStructHead") {
 			return false
@@ -1101,6 +1158,8 @@ func c08r12(rc *core.RC) {
 				switch {
 				case !any:
 					rc.OK(key, cc.Pos(), "the handler does not dereference by PtrNum itself")
+				case guardedOnly && boxesChains:
+					rc.OK(key, cc.Pos(), "code.PtrNum is followed only under the IndirectFlags test, and no struct with a pointer-to-pointer member reaches the handler with the flag clear: since fix e1f0731 the compiler compiles such a struct as one in memory and the entry points hand it over boxed (%s has a clause for pointer members; C08.R21 holds the entry points to it)", boxPred)
 				case guardedOnly:
 					rc.Bad(key, cc.Pos(), "code.PtrNum is followed only under the IndirectFlags test: for a pointer-shaped struct held directly in an interface word (struct{ P **T } by value) the remaining PtrNum-1 pointers are not followed and the inner pointer is formatted as if it were the value")
 				default:
